@@ -2,10 +2,38 @@
 import N2k.Driver.Pgn
 import N2k.Model.Decoder
 import N2k.Model.Layer
+import N2k.Model.Encoder
 namespace N2k.Driver
 open N2k N2k.Dec
 
 def genLayer : GenLayer := mkLayer genEnv Gen.decFns Gen.disps Gen.fasts
+
+def genEncLayer : Enc.EncLayer := Enc.mkEncLayer genEnv Gen.encFns Gen.fasts
+
+def showEncRes {α} (f : α → String) : Enc.Res (Nat × List α) → String
+  | .ok (s, ps) => s!"ok {s} {",".intercalate (ps.map f)}"
+  | .raised => "raised"
+  | .unmodelled => "unmodelled"
+
+def charsHex (cs : List Char) : String := bytesToHex (cs.map (·.toNat))
+
+/-- `encm <fmt> <seq> <pgn> <idhex> <prio> <src> <dst> <fieldspec>` -/
+def handleEncMsg (toks : List String) : Option String :=
+  match toks with
+  | ["encm", fmt, seq, pgn, idh, prio, src, dst, spec] => do
+    let idb ← hexToBytes idh
+    let m : Enc.MsgIn := { pgn := ← parseNat? pgn, id := String.ofList (idb.map Char.ofNat), prio := ← parseNat? prio,
+                           src := ← parseNat? src, dst := ← parseNat? dst, fields := ← parseFieldSpec spec }
+    let s ← parseNat? seq
+    match fmt with
+    | "frames" => pure (showEncRes bytesToHex (Enc.encodeFrames genEncLayer s m))
+    | "ebyte" => pure (showEncRes bytesToHex (Enc.encodeEbyte genEncLayer s m))
+    | "usb" => pure (showEncRes bytesToHex (Enc.encodeUsb genEncLayer s m))
+    | "yd" => pure (showEncRes charsHex (Enc.encodeYd genEncLayer s m))
+    | "actisense" => pure (match Enc.encodeActisense genEncLayer m with
+        | .ok l => s!"ok {s} {charsHex l}" | .raised => "raised" | .unmodelled => "unmodelled")
+    | _ => none
+  | _ => none
 
 def parseRef? (s : String) : Option PgnRef :=
   match s.toList with
@@ -54,6 +82,9 @@ structure DecInst where
 abbrev DecInsts := List (String × DecInst)
 
 def handleDec (insts : DecInsts) (toks : List String) : Option (DecInsts × String) :=
+  match handleEncMsg toks with
+  | some r => some (insts, r)
+  | none =>
   match toks with
   | ["dec.new", name, cfgs] => do
     let u ← parseCfg? cfgs
